@@ -540,9 +540,24 @@ func (ev *Eval) binary(x *SBinary) (sval, error) {
 		return sval{v: intVal(tDivE(at, bt), rt)}, nil
 	case "%":
 		return sval{v: intVal(tModE(at, bt), rt)}, nil
-	case "&":
-		return sval{v: intVal(ev.g.bitAnd(at, bt), rt)}, nil
-	case "|":
+	case "&", "|":
+		// operands of unsigned Go types are within their range (typed values); say so for the bit-level encodings
+		for _, o := range []struct {
+			t   *Term
+			typ types.Type
+		}{{&at, a.Typ}, {&bt, b.Typ}} {
+			if o.typ == nil || o.t.Lo != nil {
+				continue
+			}
+			if bb, ok := isIntType(o.typ); ok {
+				if lo, hi, ok := intRange(bb); ok && lo.Sign() == 0 {
+					o.t.Lo, o.t.Hi = lo, hi
+				}
+			}
+		}
+		if x.Op == "&" {
+			return sval{v: intVal(ev.g.bitAnd(at, bt), rt)}, nil
+		}
 		return sval{v: intVal(ev.g.bitOr(at, bt), rt)}, nil
 	case "<<":
 		if c, ok := bt.isConst(); ok {
@@ -631,6 +646,25 @@ func (ev *Eval) call(x *SCall) (sval, error) {
 			}
 			v, err := ev.header.eval(x.Args[0])
 			return sval{v: v}, err
+		case "has":
+			// has(m, k): k is a key of map m
+			if len(x.Args) != 2 {
+				return sval{}, fmt.Errorf("has(m, k)")
+			}
+			mv, err := ev.eval(x.Args[0])
+			if err != nil {
+				return sval{}, err
+			}
+			kv, err := ev.eval(x.Args[1])
+			if err != nil {
+				return sval{}, err
+			}
+			mt, modeled := mapModeled(mv.Typ)
+			if mt == nil || !modeled {
+				return sval{}, fmt.Errorf("has(): %v is not a map with a single-component key", mv.Typ)
+			}
+			kv.Typ = mt.Key()
+			return sval{v: boolVal(g.mapHas(ev.st, mv, kv))}, nil
 		case "pre":
 			if ev.pre == nil {
 				return sval{}, fmt.Errorf("pre() is only available in loop invariants and step assertions")
